@@ -64,7 +64,7 @@ def modeName : Mode → String
   | .plain .sharpNum => "sharpNum" | .plain .mustArray => "mustArray"
   | .plain .blockComment => "blockComment" | .plain .blockEnd => "blockEnd"
   | .tok .token => "token" | .tok .chr => "char" | .tok .int => "int" | .tok .bitVec => "bitVector"
-  | .str .string => "string" | .str .symbol => "symbol" | .esc => "esc" | .rune => "rune"
+  | .str .string => "string" | .str .symbol => "symbol" | .esc => "esc" | .rune => "rune" | .chrStart => "charStart"
 
 def parseFmt : String → Option FloatTy
   | "s" => some .single | "d" => some .double | "l" => some .long | _ => none
